@@ -146,13 +146,30 @@ def cell_lit(v):
   return 'cq %s' % cq(f)
 
 
+NUMFORM = 'plain'      # the TYPE of the numbers handed over: Python int/float, fractions.Fraction, numpy scalars (same values)
+
+
 def to_py(v):
-  """pv -> the Python object handed to the implementation (floats, fresh lists)"""
+  """pv -> the Python object handed to the implementation (fresh lists; numbers in the current NUMFORM)"""
   if v is None:
     return None
   if is_seq(v):
     return [to_py(e) for e in v]
+  if NUMFORM == 'fraction':
+    return F(v)
+  if NUMFORM == 'npscalar':
+    return np.int64(int(v)) if F(v).denominator == 1 else np.float64(float(v))
   return int(v) if F(v).denominator == 1 else float(v)
+
+
+def in_form(c, f):
+  """run f() with the number type of the block"""
+  global NUMFORM
+  old, NUMFORM = NUMFORM, c.get('form', 'plain')
+  try:
+    return f()
+  finally:
+    NUMFORM = old
 
 
 def shape(v):
@@ -584,11 +601,13 @@ def gen_cases(rng, tier):
   out = []
   dom, desc = vb_domain(tier)
   blk = 1500 if tier == 'thorough' else 700
-  for c in chunks(dom, blk):
+  for i, c in enumerate(chunks(dom, blk)):
     out.append({'kind': 'vb', 'ns': NS, 'bs': c})
+    # the same values again as fractions.Fraction / numpy scalars: the outcome must not depend on the TYPE of the numbers
+    out.append({'kind': 'vb', 'ns': NS, 'bs': c, 'form': ['fraction', 'npscalar'][i % 2]})
   cdom = ctor_domain(tier)
-  for c in chunks(cdom, 100):
-    out.append({'kind': 'ct', 'ks': CLASSES, 'ns': NS, 'bs': c})
+  for i, c in enumerate(chunks(cdom, 100)):
+    out.append({'kind': 'ct', 'ks': CLASSES, 'ns': NS, 'bs': c, 'form': ['plain', 'fraction', 'plain', 'npscalar'][i % 4]})
   ncb = 0
   for n in NS:
     tables = [[[0, 1]] * n, [[-1, 0]] * n] + ([[[0, 2]] + [[1, 1]] * (n - 1)] if n > 1 else [])
@@ -618,6 +637,10 @@ def gen_cases(rng, tier):
 
 
 def observe(c):
+  return in_form(c, lambda: observe_(c))
+
+
+def observe_(c):
   k = c['kind']
   if k == 'vb':
     return {'outs': [[('Z',) if in_open_region(n, b) else impl_vb(n, b) for b in c['bs']] for n in c['ns']]}
@@ -668,7 +691,7 @@ def nontrivial(c, o):
 
 
 def classify(c, o):
-  ks = ['kind:' + c['kind']]
+  ks = ['kind:' + c['kind'], 'numbers:' + c.get('form', 'plain')]
   cnt = {}
 
   def walk(x):
@@ -864,6 +887,10 @@ def oracle_par(cls, n, settings, code, rep):
 
 
 def oracle(c):
+  return in_form(c, lambda: oracle_(c))
+
+
+def oracle_(c):
   k = c['kind']
   if k == 'vb':
     for n in c['ns']:
@@ -911,7 +938,7 @@ def shrink(c, why):
   if k == 'vb':
     for n in c['ns']:
       for b in c['bs']:
-        one = {'kind': 'vb', 'ns': [n], 'bs': [b]}
+        one = {'kind': 'vb', 'ns': [n], 'bs': [b], 'form': c.get('form', 'plain')}
         w = oracle(one)
         if w:
           return one, w
@@ -919,7 +946,7 @@ def shrink(c, why):
     for kk in c['ks']:
       for n in c['ns']:
         for b in c['bs']:
-          one = {'kind': 'ct', 'ks': [kk], 'ns': [n], 'bs': [b]}
+          one = {'kind': 'ct', 'ks': [kk], 'ns': [n], 'bs': [b], 'form': c.get('form', 'plain')}
           w = oracle(one)
           if w:
             return one, w
